@@ -84,9 +84,14 @@ def git_list(repo, walk_root):
     return sorted(os.path.normpath(os.path.join(walk_root, x)) for x in out if x.endswith(".md"))
 
 
-def fm_list(repo, walk_root, respect=True):
-    root = os.path.join(repo, walk_root) if walk_root else repo
-    res = FileResolver(FileResolverConfig(respect_gitignore=respect)).resolve([root])
+ROOTS = [("",), ("sub",), ("", "sub"), ("sub", "")]   # walk roots of ONE resolve() call (the last two: overlapping directory arguments)
+
+
+def fm_list(repo, walk_roots, respect=True):
+    if isinstance(walk_roots, str):
+        walk_roots = (walk_roots,)
+    roots = [os.path.join(repo, w) if w else repo for w in walk_roots]
+    res = FileResolver(FileResolverConfig(respect_gitignore=respect)).resolve(roots)
     real = os.path.realpath(repo)
     return sorted(os.path.relpath(str(p), real) for p in res)
 
@@ -118,7 +123,7 @@ class Git(Space):
         # (a) one file with 1..2 lines (quick: 2 lines only from reps x all); (b) root x sub pairs; (c) root x sub x deep (reps)
         for d in range(len(IGDIRS)):
             for i in range(n):
-                for root in (0, 1):
+                for root in (0, 1, 2, 3):
                     yield (((d, (i,)),), root)
             second = range(n)
             for i in range(n):
@@ -127,7 +132,7 @@ class Git(Space):
                         yield (((d, (i, j)),), root)
         for i in range(n):
             for j in range(n):
-                for root in (0, 1):
+                for root in (0, 1, 2, 3) if (self.tier == "thorough" or (i in self.reps and j in self.reps)) else (0, 1):
                     yield (((0, (i,)), (1, (j,))), root)
                     if self.tier == "thorough" or (i in self.reps and j in self.reps):
                         yield (((1, (i,)), (2, (j,))), root)
@@ -149,8 +154,8 @@ class Git(Space):
 
     def describe(self, case):
         files, root = case
-        return {"gitignore": {(IGDIRS[d] or ".") + "/.gitignore": [PATS[i] for i in ls] for d, ls in files}, "walk_root": ["", "sub"][root] or ".",
-                "tree": FILES}
+        return {"gitignore": {(IGDIRS[d] or ".") + "/.gitignore": [PATS[i] for i in ls] for d, ls in files},
+                "walk_roots": [w or "." for w in ROOTS[root]], "tree": FILES}
 
     def smaller(self, case):
         files, root = case
@@ -167,21 +172,24 @@ class Git(Space):
     def evaluate(self, case):
         files, root = case
         repo = _repo()
-        walk_root = ["", "sub"][root]
+        walk_roots = ROOTS[root]
         rules = {IGDIRS[d]: [PATS[i] for i in ls] for d, ls in files}
         tree = fresh_tree()
         try:
             set_ignores(tree, rules)
-            got = fm_list(tree, walk_root)
-            nores = fm_list(tree, walk_root, respect=False)
+            got = fm_list(tree, walk_roots)
+            nores = fm_list(tree, walk_roots, respect=False)
         finally:
             shutil.rmtree(tree, ignore_errors=True)
-        # git: ignore files above the walk root do not count
-        git_rules = {d: r for d, r in rules.items() if not walk_root or d == walk_root or d.startswith(walk_root + "/")}
-        set_ignores(repo, git_rules)
-        want = git_list(repo, walk_root)
-        set_ignores(repo, {})
-        all_files = git_list(repo, walk_root)
+        # git: one listing per walk root (ignore files above that root do not count); several roots = the union
+        want, all_files = set(), set()
+        for walk_root in walk_roots:
+            git_rules = {d: r for d, r in rules.items() if not walk_root or d == walk_root or d.startswith(walk_root + "/")}
+            set_ignores(repo, git_rules)
+            want |= set(git_list(repo, walk_root))
+            set_ignores(repo, {})
+            all_files |= set(git_list(repo, walk_root))
+        want, all_files, walk_root = sorted(want), sorted(all_files), " + ".join(w or "." for w in walk_roots)
         tags, viol = [], []
         if want != all_files:
             tags.append("git-ignores-something")
